@@ -36,6 +36,16 @@ ROWS = [
     ("match-as", "identifier field", "MatchAs", "match 1:\n        case v:\n            pass", True, "body"),
     ("match-star", "identifier field", "MatchStar", "match [1]:\n        case [*v]:\n            pass", True, "body"),
     ("match-mapping-rest", "identifier field", "MatchMapping", "match {}:\n        case {**v}:\n            pass", True, "body"),
+    # captures nested inside a pattern that itself binds a name (the outer handler must still walk its sub-patterns)
+    ("match-capture-inside-as", "identifier field", "MatchAs", "match [1]:\n        case [v] as w:\n            pass", True, "body"),
+    ("match-capture-inside-mapping-with-rest", "identifier field", "MatchAs", "match {}:\n        case {'k': v, **w}:\n            pass", True, "body"),
+    ("match-capture-inside-class-pattern", "identifier field", "MatchAs", "match 1:\n        case int(real=v) as w:\n            pass", True, "body"),
+    ("match-star-inside-as", "identifier field", "MatchStar", "match [1]:\n        case [*v] as w:\n            pass", True, "body"),
+    # bindings inside compound statements the collector has handlers for
+    ("local-in-with-body", "Name(Store)", "With", "with open('x') as w:\n        v = 1", True, "body"),
+    ("local-in-for-else", "Name(Store)", "For", "for w in ():\n        pass\n    else:\n        v = 1", True, "body"),
+    ("local-in-match-body", "Name(Store)", "Match", "match 1:\n        case w:\n            v = 1", True, "body"),
+    ("walrus-in-except-type", "Name(Store)", "NamedExpr", "try:\n        pass\n    except (v := Exception):\n        pass", True, "body"),
     # bindings that belong to a nested scope: must NOT be attributed to f
     ("nested-def-local", "Name(Store)", "FunctionDef", "def g():\n        v = 1", False, None),
     ("nested-def-param", "arg", "FunctionDef", "def g(v):\n        pass", False, None),
